@@ -397,7 +397,14 @@ def frac_of(x):
   if isinstance(x, (int, np.integer)):
     return Fraction(int(x))
   if isinstance(x, (float, np.floating)):
-    return Fraction(float(x))
+    # reals-for-float64: a float constant that IS the rounding of a small rational (0.4 = fl(2/5), 1e-3, 1/3.) stands for
+    # that rational, so that `1 - nc / n` computed in floats and `x / n` computed on terms agree exactly
+    f = Fraction(float(x))
+    if f.denominator > 1024:
+      g = f.limit_denominator(10 ** 6)
+      if float(g) == float(x):
+        return g
+    return f
   raise TypeError(type(x))
 
 
